@@ -75,9 +75,10 @@ def gen_claims(rng):
 
 
 def numeric_date(dt: datetime.datetime) -> int:
-    if dt.tzinfo is None:
-        return math.floor((dt - datetime.datetime(1970, 1, 1)).total_seconds())
-    return math.floor((dt - datetime.datetime(1970, 1, 1, tzinfo=datetime.timezone.utc)).total_seconds())
+    # exact integer arithmetic (a timedelta is normalised with 0 <= microseconds, so days and seconds are the floor); total_seconds() is a float
+    # and loses the microsecond for dates far from 1970
+    td = dt - (datetime.datetime(1970, 1, 1) if dt.tzinfo is None else datetime.datetime(1970, 1, 1, tzinfo=datetime.timezone.utc))
+    return td.days * 86400 + td.seconds
 
 
 def add_dates(rng, claims):
@@ -87,7 +88,9 @@ def add_dates(rng, claims):
     for name in ("exp", "nbf", "iat"):
         r = rng.random()
         if r < 0.35:
-            secs = rng.randrange(1, 4_000_000_000)
+            # the whole range of datetime: before 1970 (negative NumericDates), far future, the very first and last representable seconds
+            secs = rng.choice([rng.randrange(1, 4_000_000_000), rng.randrange(1, 4_000_000_000), -rng.randrange(1, 3_000_000_000), rng.randrange(17_000_000_000, 250_000_000_000),
+                               -62135596800 + rng.randrange(86400, 10 ** 7), 253402300799 - rng.randrange(86400, 10 ** 7), -1, 0])
             micro = rng.choice([0, 0, 1, 500000, 999999])
             tz = rng.choice([None, datetime.timezone.utc, datetime.timezone(datetime.timedelta(hours=5, minutes=30)),
                              datetime.timezone(datetime.timedelta(hours=-8))])
@@ -195,7 +198,8 @@ def roundtrip(mon: Mon, ctx, rng, tp):
     else:
         header.update(alg=tp["alg"], enc=tp["enc"])
     if rng.random() < 0.4:
-        header["typ"] = rng.choice(["at+jwt", "JWT", "jwt", "x"])
+        header["typ"] = rng.choice(["at+jwt", "JWT", "jwt", "x", "application/at+jwt", "application/jwt", "APPLICATION/x", "application/a/b", "application/example;part=\"1/2\"",
+                                    "", " JWT ", "dpop+jwt", "application/"])
     if rng.random() < 0.3:
         header["cty"] = "JWT"
     key_form = rng.choice(["key", "keyset", "callable"])
